@@ -193,12 +193,21 @@ class FuseInterp:
         elif isinstance(node, ast.BinOp) and isinstance(node.op, ast.Mod):
             inner, k = node.left, node.right
         if inner is None or not isinstance(inner, ast.Subscript):
+            # a component computed from the raw charges, bypassing new_signature * (charges . signatures), is a definite breach of
+            # the normal form: for inputs outside the canonical range it is no longer R_m of the signed sum
+            if any(isinstance(x, ast.Name) and x.id == self.p_ch for x in ast.walk(node)):
+                raise NotLinearForm(node, j)
             self.err(node, "column store is not a modular reduction")
         ci = self.col_index(inner)
         if ci != (name, j):
             # reduction of a different column written into column j: definite breach, reported by caller
             raise ColumnMix(node, ci, (name, j))
         return self.modulus(k)
+
+
+class NotLinearForm(Exception):
+    def __init__(self, node, col):
+        self.node, self.col = node, col
 
 
 class ColumnMix(Exception):
@@ -272,6 +281,11 @@ def check_fuse(chk, base, syms):
         except ColumnMix as e:
             chk.bad("G1", (fi, e.node), e.node, f"column {e.dst[1]} is overwritten with a reduction of column "
                     f"{e.src[1] if e.src else '?'}: not component-wise")
+            continue
+        except NotLinearForm as e:
+            chk.bad("G1", (fi, e.node), e.node, f"component {e.col} of the fused charge is computed from the raw charges (`{A.short(e.node, 60)}`) and not "
+                    f"as a reduction of new_signature * (charges . signatures): for charges outside the canonical range the result is not "
+                    f"R_m(sigma * sum s_j c_j), so fuse() is no longer the group law (Leg uses it to test canonicity)")
             continue
         facts = {"SYM_ID": sym_id, "NSYM": nsym, "moduli_expected": [m or "inf" for m in want],
                  "moduli_found": {str(k): v_ for k, v_ in v.red.items()}, "signed": v.sign}
@@ -610,6 +624,32 @@ def check_leg(chk):
             else:
                 guards.setdefault(cat, []).append((n, ok, detail))
     required = ["signature", "D-positive-int", "t-int", "count", "canonical", "duplicates"]
+    if unknown and "D-positive-int" not in guards:
+        # decide the guard on the dimensions semantically: all guards that mention D (and nothing else that varies) are evaluated by
+        # the mini evaluator on witness tuples; every invalid witness must be rejected by one of them, no valid one by any
+        from ..core.minieval import evaluate, CannotEvaluate
+        dname = None
+        for nm in ("D", "self.D"):
+            if any(nm in {A.text(x) for x in ast.walk(n.test)} for n, _d in unknown):
+                dname = nm
+        cand = [(n, d) for n, d in unknown if dname and dname in {A.text(x) for x in ast.walk(n.test)}]
+        if cand:
+            invalid = [(-1,), (0,), (1.5,), (2, -3), (2, 0), (1, 2.5)]
+            valid = [(1,), (2, 3), (7,)]
+            try:
+                def rejects(Dv):
+                    return any(bool(evaluate(n.test, {dname: Dv, "D": Dv})) for n, _d in cand)
+                missed = [w for w in invalid if not rejects(w)]
+                wrongly = [w for w in valid if rejects(w)]
+            except CannotEvaluate as e:
+                raise AnalysisError(f"Leg.__post_init__: guard on D `{A.short(cand[0][0].test)}` cannot be evaluated ({e}) — cannot decide G5")
+            n0 = cand[0][0]
+            if missed or wrongly:
+                guards.setdefault("D-positive-int", []).append((n0, False, f"evaluated on witness tuples: accepts the invalid dimensions {missed}"
+                                                               + (f", rejects the valid {wrongly}" if wrongly else "") + "; required: every entry an integer > 0"))
+            else:
+                guards.setdefault("D-positive-int", []).append((n0, True, "evaluated on witness tuples: rejects non-positive and non-integer entries"))
+            unknown = [(n, d) for n, d in unknown if (n, d) not in cand]
     if unknown:
         missing = [r for r in required if r not in guards]
         if missing:
